@@ -41,6 +41,7 @@ BUDGET_S = {"quick": 900, "thorough": 3000}
 
 
 def shards(tier, seed):
+    LIFE = [{"lifecycle": [n]} for n in ['OptimalCompletion', 'HardOptimalCompletionDistillationLoss']]
     L = S.max_len(tier)
     out = [{"R": R, "H": H} for R in range(1, L + 1) for H in range(1, L + 1)]
     # long references over a binary alphabet: the same token at three or more positions, so that the
@@ -53,7 +54,7 @@ def shards(tier, seed):
     out += [{"large": [40, 36, 24], "cost": c} for c in ((1.0, 1.0, 1.0), (1.0, 0.5, 2.0), (0.7, 0.7, 0.7), (0.3, 0.3, 0.3))]
     out += [{"large": [20, 18, 12], "cost": (1.0, 2.0, 3.0), "id_offset": S.BIG_ID},
             {"large": [20, 18, 12], "cost": (1.0, 0.5, 2.0), "jit": True}]
-    return out
+    return LIFE + out
 
 
 def _targets(er, eh, cost, exclude_last, rows, sigma=S.SIGMA):
@@ -307,6 +308,9 @@ def _large(ctx, R, H, N, cost, seed, id_offset=0, jit=False):
 
 def run_shard(spec, tier, seed):
     ctx = Ctx()
+    if "lifecycle" in spec:
+        S.lifecycle_pass(ctx, spec["lifecycle"], seed)
+        return ctx
     if "large" in spec:
         for gs in S.GLOBAL_STATES:  # the same instance under every global torch state: results must not change
             sub = Ctx()
@@ -345,6 +349,9 @@ def run_shard(spec, tier, seed):
 
 def replay(case):
     ctx = Ctx()
+    if case.get("kind") == "lifecycle":
+        S.lifecycle_pass(ctx, [case["module"]], case.get("seed", 0))
+        return ctx
     if case["kind"] == "large":
         _large(ctx, case["R"], case["H"], case["N"], tuple(case["cost"]), case["seed"], case.get("id_offset", 0),
                case.get("jit", False))
